@@ -386,6 +386,8 @@ async def tee_peer(
                         # item already.
                         for peer_buffer in peers:
                             peer_buffer.append(item)
+                        # do not keep a sibling's buffer alive if it closes meanwhile
+                        del peer_buffer
             yield buffer.popleft()
     finally:
         await tee_peer_done(iterator, buffer, peers)
